@@ -8,6 +8,7 @@ CFG_QUICK = [
     dict(comp="xz", bs=4096, T=1, e=1),
     dict(comp="lz4", bs=4096, j=4, Q=1),
     dict(comp="zstd", bs=8192, X="level=3"),
+    dict(comp="gzip", bs=4096, B=65536, e=1),
 ]
 CFG_THOROUGH = CFG_QUICK + [
     dict(comp="gzip", bs=131072, e=1, X="level=1"),
@@ -19,6 +20,8 @@ CFG_THOROUGH = CFG_QUICK + [
     dict(comp="zstd", bs=4096, set_gid=88, set_uid=99),
     dict(comp="gzip", bs=4096, all_root=1),
     dict(comp="zstd", bs=1048576),
+    dict(comp="lz4", bs=4096, B=1024),
+    dict(comp="xz", bs=131072, B=1048576, T=1),
 ]
 CFG_OPTION_QUICK = [
     dict(comp="gzip", bs=4096, defaults=dict(uid=11, gid=12, mode=0o711, mtime=12345)),
